@@ -42,6 +42,8 @@ func (s Step) String() string {
 		return fmt.Sprintf("broker sends raw %x", cut(s.Raw, 24))
 	case "advance":
 		return fmt.Sprintf("advance %v", s.D)
+	case "stall":
+		return "broker stops reading"
 	case "cause":
 		return "cause: " + s.Cause
 	}
@@ -165,6 +167,9 @@ func execSteps(w *world.World, s *world.Session, b *world.Broker, steps []Step) 
 			s.MQSend(st.Raw)
 		case "advance":
 			time.Sleep(st.D)
+		case "stall":
+			w.Tr.Add(s.ID, world.Note, nil, "broker stops reading (link capacity 2048 bytes)")
+			s.StallBroker(2048)
 		case "note":
 			w.Tr.Add(s.ID, world.Note, nil, st.Cause)
 		case "note-cause":
